@@ -783,6 +783,7 @@ def check(db, rep):
     sv.child_index_rule(db, r3, tg)
     sv.dispatch_rule(db, r3, tg)
     C02.parent_rule(db, r3, tg)
+    C02.variant_rule(db, r3, tg, {})         # std::get<Typification> on a logical value throws bad_variant_access out of the entry points (shared with C02 r3)
     r5 = rep.rule('r5', 'LEXER-TOTAL: no input can jam either scanner; unknown bytes yield INTERRUPT, reported as unknownSymbol', 6)
     lexer_total(db, r5)
     r6 = rep.rule('r6', 'OWN-LOG: a nested analyser working on another text never reports into the caller\'s log', 1)
